@@ -22,6 +22,7 @@ trickGoogle   == <<Str("a"), Str("google"), Str("x"), Str("notgoogle"), Str("com
 googleBlog    == <<Str("google"), Str("blogspot"), Str("com")>>
 googleCk      == <<Str("google"), Str("foo"), Str("ck")>>
 googleZz      == <<Str("google"), Str("zz")>>
+notGoogleGoogle == <<Str("notgoogle"), Str("google"), Str("com")>>
 ipHost        == <<Str("1"), Str("2"), Str("3"), Str("4")>>
 googleWild    == <<Str("google"), <<42>>>>
 exampleWild   == <<Str("example"), <<42>>>>
@@ -44,7 +45,7 @@ Urls == { <<Str("http://example.org/ad.js"), exampleOrg>>,
           <<Str("http://example.com/Ad.JS"), exampleCom>>,
           <<Str("http://1.2.3.4/ad.js"), ipHost>> }
 Srcs == { <<>>, exampleOrg, subExampleOrg, notexampleOrg, exampleCom, googleCom, mailGoogleUk,
-          trickGoogle, googleBlog, googleCk, googleZz, exampleCoUk }
+          trickGoogle, googleBlog, googleCk, googleZz, exampleCoUk, notGoogleGoogle }
 QTypes == {"script", "image", "document", "subdocument"}
 
 V4(a, b, c, d) == [fam |-> 4, bytes |-> <<a, b, c, d>>]
